@@ -134,6 +134,7 @@ class Crazyflie():
         self._answer_patterns = {}
 
         self._send_lock = Lock()
+        self._sending_thread = None
 
         self.connected_ts = None
 
@@ -212,6 +213,12 @@ class Crazyflie():
         """Called from the link driver when there's an error"""
         logger.warning('Got link error callback [%s] in state [%s]',
                        errmsg, self.state)
+        if self._sending_thread is current_thread():
+            # The driver reported the error from within send_packet(). This thread
+            # holds the send lock (and possibly locks of the caller), handling the
+            # error here could dead lock. Do it from a separate thread instead.
+            Thread(target=self._link_error_cb, args=(errmsg,), daemon=True).start()
+            return
         if (self.link is not None):
             self.link.close()
         self.link = None
@@ -377,7 +384,9 @@ class Crazyflie():
                 else:
                     logger.debug('Resend requested, but no pattern found: %s',
                                  self._answer_patterns)
+            self._sending_thread = current_thread()
             self.link.send_packet(pk)
+            self._sending_thread = None
             self.packet_sent.call(pk)
         self._send_lock.release()
 
